@@ -131,7 +131,7 @@ HandleNV(R, n, m) ==
            li    == IF noP THEN 0 ELSE CHOOSE i \in withP : \A j \in withP : m.votes[j].proof.ppv <= m.votes[i].proof.ppv
            proofOK == noP \/ ( /\ (On("nv_proof") => ValidProof(m.votes[li].proof, ns.h, m.votes[li].v))
                                /\ m.votes[li].canon /\ m.votes[li].s \in Members(ns.h)
-                               /\ (On("nv_lock") => (m.blk # "-" /\ m.blk = m.votes[li].proof.ppx /\ m.pp.x = m.votes[li].proof.ppx)) )
+                               /\ (On("nv_lock") => (m.blk # "-" /\ m.bok /\ m.blk = m.votes[li].proof.ppx /\ m.pp.x = m.votes[li].proof.ppx)) )   \* (bok: the consumer's ValidateBlockCommitment for THIS height)
        IN IF ~proofOK THEN R
           ELSE LET valok == n \in SeqToSet(m.okfor)
                    R1 == IF noP THEN [R EXCEPT !.vals = Append(@, [blk |-> m.blk, ok |-> valok, by |-> LeaderM(ns.h, m.vm)])] ELSE R
